@@ -28,3 +28,32 @@ Proof. reflexivity. Qed.
 
 Print Assumptions C19_every_interleaving_gives_the_sequential_results_partial.
 Print Assumptions C19_schedules_agree_partial.
+
+(* State space: the objects this property's model stands for have exactly the fields the model accounts for (StateSpace.v;
+   gen/StateSpaceGen.v is regenerated from the Go sources on every run). A new field - a cache, a memo, a counter - is state
+   the model does not have, so the theorems above would no longer be about the object. *)
+From Coq Require Import String.
+Require Import StateSpaceGen StateSpace.
+Open Scope string_scope.
+Theorem C19_state_space :
+  fields_of "calculator.ExpressionCalculator" = fields ["defaultVariables"; "defaultFunctions"; "variantOperations"; "parser"; "autoVariables"] /\
+  fields_of "calculator/parsers.ExpressionParser" = fields ["tokenizer"; "expression"; "originalTokens"; "initialTokens"; "currentTokenIndex"; "variableNames"; "resultTokens"] /\
+  fields_of "calculator.CalculationStack" = fields ["values"] /\
+  fields_of "variants.Variant" = fields ["typ"; "value"] /\
+  fields_of "variants.AbstractVariantOperations" = fields ["Overrides"] /\
+  fields_of "variants.TypeUnsafeVariantOperations" = fields ["embedded *AbstractVariantOperations"] /\
+  fields_of "variants.TypeSafeVariantOperations" = fields ["embedded *AbstractVariantOperations"] /\
+  fields_of "calculator/variables.VariableCollection" = fields ["variables"] /\
+  fields_of "calculator/variables.Variable" = fields ["name"; "value"] /\
+  fields_of "calculator/functions.FunctionCollection" = fields ["functions"] /\
+  fields_of "calculator/functions.DelegatedFunction" = fields ["name"; "calculator"] /\
+  fields_of "mustache.MustacheTemplate" = fields ["defaultVariables"; "parser"; "autoVariables"] /\
+  fields_of "mustache/parsers.MustacheParser" = fields ["tokenizer"; "template"; "originalTokens"; "initialTokens"; "currentTokenIndex"; "variableNames"; "resultTokens"].
+Proof. vm_compute. repeat split; reflexivity. Qed.
+Require Import StateSpaceAll.
+(* ... and the library as a whole has no struct field and no package-level variable beyond the accounted ones: no hidden
+   state through which one call, instance or goroutine could reach another *)
+Theorem C19_no_hidden_state : go_structs = enc_structs /\ go_package_vars = enc_vars.
+Proof. exact (conj structs_accounted package_vars_accounted). Qed.
+Print Assumptions C19_no_hidden_state.
+Print Assumptions C19_state_space.
